@@ -18,6 +18,8 @@ RULE = (
     'byte-identical; the kernel FIFO monitor runs on every activation; non-trivial = at least '
     'one time step with >= 2 distinct runnable activities; distinct = distinct event-log digest'
 )
+RULE = RULE + (' Further: two-run programs (first simulation aborted, loop-sized allocations in between), negative start times, a handler-matching battery over exception classes made afresh in every run and a levels battery (a supply declared in another order and dropped) at the end of every trace.')
+
 LEVEL_TEXT = (
     'Exploration by differential runtime monitoring: the event log of the real code is recorded '
     'for each generated program under 9 process configurations and compared; a kernel monitor '
